@@ -49,6 +49,7 @@ SPECIAL_VALID = [
     "v, true", "v, -1", "v, 1 + 2", "v, \"s\"", "v, r#\"s\"#", "v, b\"s\"", "v, 1u8", "v, 1.0", "v, Some(Some(Some(_)))",
     "v, (((1,),),)", "v, [[[]]]", "v, S { a: S { a: S { a: 1 } } }", "v, #(#(#(1)))", "v, #{ 1: #{ 2: #{ 3: 4 } } }",
     "f(a, b), x", "a.b.c, 1", "&v[..], [1, 2]", "v.await, 1", "if a { b } else { c }, 1", "match x { _ => 1 }, 1",
+    "v, Some < [ [ self ] [  ] { 0.1 .. <= } ] >", "v, Vec::<[u8 9]>::new()", "v, m::S::<(a b)> { x: 1 }", "v, E::<[T; 3 4]>::V(1)",
     "v, S { a: 4294967294 }", "v, Some(0: 1)", "v, E::V(0.f: 1, 1: 2)", "v, (0.0: 1)",
 ]
 # tuple indices at and above u32::MAX (syn::Index::from asserts index < u32::MAX)
